@@ -67,17 +67,31 @@ def parseDecInt (s : String) : Option Int :=
     if n > 9223372036854775807 + (if neg then 1 else 0) then none
     else some (if neg then -(n : Int) else n)
 
-partial def fieldByName (fields : List (String × Bool × Bool × Val)) (name : String) : Option (Bool × Val) :=
+mutual
+/-- promoted fields: the embedded struct fields are searched in declaration order, each one first among its
+    own fields and then among its own embedded structs (one level is all the harness types need) -/
+def promotedField : List (String × Bool × Bool × Val) → String → Option (Bool × Val)
+  | [], _ => none
+  | (_, _, true, v) :: rest, name =>
+    match embeddedField v name with
+    | some r => some r
+    | none => promotedField rest name
+  | (_, _, false, _) :: rest, name => promotedField rest name
+/-- lookup inside the value of an embedded field (only struct values promote their fields) -/
+def embeddedField : Val → String → Option (Bool × Val)
+  | .struct _ fs, name =>
+    match fs.find? (fun f => f.1 = name) with
+    | some f => some (f.2.1, f.2.2.2)
+    | none => promotedField fs name
+  | _, _ => none
+end
+
+/-- reflect's FieldByName on the field list: `(exported, value)` of the field called `name`; total (structural
+    recursion through `promotedField`/`embeddedField`) -/
+def fieldByName (fields : List (String × Bool × Bool × Val)) (name : String) : Option (Bool × Val) :=
   match fields.find? (fun f => f.1 = name) with
   | some f => some (f.2.1, f.2.2.2)
-  | none =>
-    -- promoted fields of embedded structs (one level is all the harness types need)
-    fields.findSome? fun f =>
-      if f.2.2.1 then
-        match f.2.2.2 with
-        | .struct _ fs => fieldByName fs name
-        | _ => none
-      else none
+  | none => promotedField fields name
 
 def getValue (name : String) (from_ : Val) : Look :=
   match from_ with
